@@ -612,14 +612,13 @@ def _check_sequential(case):
     n, names = case["n"], case["names"]
     src = _seq_render(case)
     deps, acyclic = _seq_ref(case)
-    written = list(case["written"])
     m = api("seq:from_string", ir.Sequential.from_string, src)
     old = tuple(api("seq:equation_strings", lambda: m.equation_strings))
-    # the harness's reading of which equation is which
-    old_vars = [_lhs_var_of(s, names) for s in old]
-    if not col.check(old_vars == written, "seq:source_order_not_kept",
-                     lambda: f"equation_strings {old} do not follow the source order {[names[v] for v in written]}\n{src}"):
-        col.done()
+    # the harness's reading of which equation is which; the model's own initial order is the
+    # reference point (normally the source order, but that is not something the property says)
+    written = [_lhs_var_of(s, names) for s in old]
+    if sorted(v for v in written if v is not None) != list(range(n)):
+        raise RuntimeError(f"harness cannot identify the equations in {old} for\n{src}")
     written_ok = _order_is_sequential(written, deps)
     before = api("seq:is_sequential", lambda: m.is_sequential)
     col.check(bool(before) == written_ok, "seq:is_sequential_before",
